@@ -44,7 +44,8 @@ PROPERTIES = {
                 "completed; then EVERY single site and EVERY ordered pair of sites is failed in turn (exhaustive per shape) and the ack "
                 "must be an error ack. PROD world: 13 naturally occurring failure causes (FTF blacklist/pause, CCTP burn limit/unknown "
                 "domain/burning paused, Hyperlane unknown domain/token/other-denom token, blocked recipient, short escrow, receive disabled): "
-                "error ack, or a success whose whole-ledger delta is exactly the model's. Every call site is also made to fail by PANICKING, before "
+                "error ack, or a success whose whole-ledger delta is exactly the model's; for the causes the statement lists (and whenever the cause "
+                "makes a step of this transfer impossible) a success is a violation. Every call site is also made to fail by PANICKING, before "
                 "the real call and after it completed: the receive path may abort or return an error ack, never a success. "
                 "Non-trivial = a faulted run whose fault fired / a "
                 "natural failure; distinct by (shape, fault tuple).",
@@ -213,7 +214,8 @@ PROPERTIES = {
                 "independently constructed application instances in one process, and a second time on the first instance; per step the "
                 "acknowledgement bytes, the ordered ABCI event list and a digest of every KV store, and at the end the exported orbiter and bank "
                 "genesis, must be byte-identical. The cross-process test repeats the comparison between two separate OS processes running the "
-                "same seeded history set. TestC19FreshInstance: each case is (warm-up, history); the history is replayed on a brand-new instance, on "
+                "same seeded history set. A third of the histories start from a rich-state prefix (both actions, several protocols and counterparties "
+                "paused, non-default parameter) so that read-back order has something to reorder. TestC19FreshInstance: each case is (warm-up, history); the history is replayed on a brand-new instance, on "
                 "a second brand-new instance that first executed the warm-up on a DISCARDED branch, and on the long-lived instance of the process; "
                 "all three transcripts must be identical (state kept outside the store); 60% of the cases send siblings of the warm-up's valid "
                 "transfers (one thing changed) with coins on the orbiter account. "
